@@ -54,6 +54,17 @@ chk("C06", "exploration",
     T_NOTE + " init_charge is a layout policy and is not compared across.",
     "deterministic simulation: differential replay after seeded history/abort/reset faults", "§5 C06", "T6")
 
+chk("C16", "fault_enumeration",
+    "Per generated event, faults are enumerated rather than sampled: (a) every step that allocates secondaries x every free-cell "
+    "count 0..need-1 (stack pre-filled at user_pre of that step) plus whole-event runs with 0/1/2 free cells; oracle: failed "
+    "interactions leave the track alive with nothing emitted, stack size never exceeds capacity, the event terminates, and the "
+    "C01 per-step/per-track/per-event energy balance and C02 track-set model hold exactly; (b) every initializer capacity "
+    "1..peak-1 must end in celeritas::RuntimeError (no crash, no ASan report), capacity == peak must not, and after reset_state() "
+    "a later event must equal its fresh-state history bitwise. Caps per plan (max_stack_steps, max_caps) are reported; events "
+    "fully enumerated are counted.",
+    T_NOTE + " Stack fullness is injected by raising the size cell of the real StackAllocator from a user_pre action.",
+    "deterministic simulation: enumerated fault points (stack cells x steps, capacities) with recovery oracle", "§5 C16", "T16")
+
 def main():
     checks = []
     for pid in sorted(CHECKS):
